@@ -1,12 +1,18 @@
 // c02.cpp — drives the three neighbour searches of tapkee on exact (integer valued) metrics.
 //
-// The samples are the integers 0..N-1 (a std::vector<int>); the distance / kernel callback looks
+// The samples are integer ids (0..N-1 unless an IDS line says otherwise); the distance / kernel callback looks
 // the value up in a matrix supplied on stdin, so every distance is an exactly representable
 // integer and model and implementation must agree exactly, ties included.
 //
 // stdin (one token stream, line oriented):
 //   CASE <N> D            followed by N lines of N numbers (decimal integers or hex floats): the distance matrix
 //   CASE <N> K <dim>      followed by N lines of dim integers: feature vectors, kernel = dot product
+//   CASE <N> KM           followed by N lines of N numbers (decimal integers or hex floats): the kernel matrix itself
+//   IDS <pf> <pb> id_0 .. id_{N-1}   (optional, directly after the matrix) the sample ids: the vector the iterators run
+//                         over holds pf poison entries, then the N distinct ids, then pb poison entries; begin/end
+//                         delimit the N ids.  Row/column i of the matrix belongs to POSITION i (the sample *(begin+i));
+//                         the callbacks receive ids and look the position up; a callback on an id that is not one of
+//                         the N ids (a read outside [begin,end)) throws.  Every index printed below is a position.
 //   F <method> <k>        tapkee_internal::find_neighbors(method, begin, end, cb, k, false)
 //                         method: B (Brute) V (VpTree) C (CoverTree)
 //   O <k> <row>           the brute-force nth_element ORACLE observed: rebuilds the `distances`
@@ -76,18 +82,50 @@ static double harness_uniform()
 using namespace tapkee;
 using namespace tapkee::tapkee_internal;
 
-typedef std::vector<int> Samples;
-typedef Samples::iterator It;
+typedef std::vector<int> Store;
+typedef Store::iterator It;
+
+// the range [begin, end) the library is given; a window of `store`
+struct Samples
+{
+    Store store;
+    size_t first = 0, count = 0;
+    It begin() { return store.begin() + first; }
+    It end() { return store.begin() + first + count; }
+    size_t size() const { return count; }
+};
+
+// id -> position (row of the matrix)
+struct IdMap
+{
+    bool identity = true;
+    int n = 0;
+    long long base = 0;
+    std::vector<int> table; // id - base -> position or -1
+    inline int pos(int id) const
+    {
+        if (identity)
+        {
+            if (id < 0 || id >= n) throw std::runtime_error("callback on a sample outside [begin,end)");
+            return id;
+        }
+        long long o = (long long)id - base;
+        if (o < 0 || o >= (long long)table.size() || table[o] < 0)
+            throw std::runtime_error("callback on a sample outside [begin,end)");
+        return table[o];
+    }
+};
+static IdMap g_ids;
 
 struct matrix_distance_callback
 {
     const std::vector<std::vector<double>>* m;
-    ScalarType distance(int a, int b) const { return (*m)[a][b]; }
+    ScalarType distance(int a, int b) const { return (*m)[g_ids.pos(a)][g_ids.pos(b)]; }
 };
 struct matrix_kernel_callback
 {
     const std::vector<std::vector<double>>* m;
-    ScalarType kernel(int a, int b) const { return (*m)[a][b]; }
+    ScalarType kernel(int a, int b) const { return (*m)[g_ids.pos(a)][g_ids.pos(b)]; }
 };
 
 typedef PlainDistance<It, matrix_distance_callback> PD;
@@ -273,9 +311,9 @@ int main()
         {
             std::string kind;
             is >> N >> kind;
-            kernel = kind == "K";
+            kernel = kind == "K" || kind == "KM";
             M.assign(N, std::vector<double>(N, 0.0));
-            if (!kernel)
+            if (kind != "K")
             {
                 for (int i = 0; i < N; i++)
                 {
@@ -308,10 +346,39 @@ int main()
                         M[i][j] = (double)acc;
                     }
             }
-            samples.resize(N);
-            for (int i = 0; i < N; i++) samples[i] = i;
+            samples.store.resize(N);
+            samples.first = 0;
+            samples.count = N;
+            for (int i = 0; i < N; i++) samples.store[i] = i;
+            g_ids = IdMap();
+            g_ids.n = N;
             printf("C %ld\n", ncase++);
             fflush(stdout);
+            continue;
+        }
+        if (cmd == "IDS")
+        {
+            long long pf = 0, pb = 0;
+            is >> pf >> pb;
+            std::vector<long long> ids;
+            long long v;
+            while (is >> v) ids.push_back(v);
+            if (N > 0 && (int)ids.size() == N && pf >= 0 && pb >= 0 && pf + pb <= 64)
+            {
+                long long lo = ids[0], hi = ids[0];
+                for (long long x : ids) { lo = std::min(lo, x); hi = std::max(hi, x); }
+                if (hi - lo <= 64LL * N + 4096 && lo > -2000000000LL && hi < 2000000000LL)
+                {
+                    g_ids.identity = false;
+                    g_ids.base = lo;
+                    g_ids.table.assign((size_t)(hi - lo + 1), -1);
+                    for (int i = 0; i < N; i++) g_ids.table[(size_t)(ids[i] - lo)] = i;
+                    samples.store.assign((size_t)(pf + N + pb), (int)(lo - 7)); // poison: not an id of the range
+                    for (int i = 0; i < N; i++) samples.store[(size_t)pf + i] = (int)ids[i];
+                    samples.first = (size_t)pf;
+                    samples.count = (size_t)N;
+                }
+            }
             continue;
         }
         if (cmd == "END")
